@@ -56,6 +56,7 @@ type stagePlan struct {
 	covers []coverPlan
 	traces func(tier string) []tracePlan
 	sig    bool // run the front-end stage (Sig.tla)
+	repo   bool // validate the traces of the repository's own test-suite (trace hooks)
 	extra  func(rep *Report, def *propDef)
 }
 
@@ -82,6 +83,10 @@ func genericRun(sp stagePlan) func(rep *Report, def *propDef) {
 		if sp.sig {
 			st, err := sigStage(budget, 6)
 			rep.takeSig(def, st, err)
+		}
+		if sp.repo {
+			st, rs, err := repoTraceStage(budget, 4)
+			rep.takeRepoTrace(def, st, rs, err)
 		}
 		if sp.extra != nil {
 			sp.extra(rep, def)
@@ -224,17 +229,19 @@ func init() {
 
 	register(&propDef{id: "C02",
 		projection: "multiset of executions per function over the whole history, execution number carried by every received value, called markers",
-		kinds:      []string{"exec.extra", "snap.called", "snap.dcalled", "processcrash"},
+		kinds:      []string{"exec.extra", "snap.called", "snap.dcalled", "processcrash", "nest.count", "nest.verdict"},
 		extra: func(k, d string) bool {
 			return strings.HasPrefix(k, "args.") && !contains(d, "zero")
 		},
 		run: genericRun(stagePlan{
+			repo: true,
 			covers: []coverPlan{
 				randCover("once", small, recBoth, 60, 500, 1),
 				structCover("chain", fam.Chain, recBoth, false, 25, 0, 2, 1),
 				wideCover("chain", fam.Chain, recBoth, false, 250, 1),
 				structCover("groups", fam.Groups, rec, false, 4, 0, 2, 1),
 				wideCover("groups", fam.Groups, rec, false, 40, 1),
+				structCover("reenter", fam.Reenter, recBoth, false, 25, 0, 2, 1),
 			},
 			traces: stdTraces("once", medium, 0.1, stdOpts)})})
 
@@ -242,12 +249,14 @@ func init() {
 		projection: "set of user functions executed per API call (nothing during Provide/Decorate/Scope/Visualize/String; only the closure during Invoke; whole closure on success) and dependency-before-consumer order",
 		kinds:      []string{"exec.extra", "exec.missing", "exec.inreg", "exec.depsfirst", "viz.misbehaved"},
 		run: genericRun(stagePlan{
+			repo: true,
 			covers: []coverPlan{
 				randCover("lazy", small, rec, 60, 500, 0),
 				structCover("chain", fam.Chain, rec, false, 60, 0, 2, 0),
 				wideCover("chain", fam.Chain, rec, false, 250, 0),
 				structCover("groups", fam.Groups, rec, false, 15, 0, 2, 0),
 				wideCover("groups", fam.Groups, rec, false, 60, 0),
+				wideCover("reenter", fam.Reenter, rec, false, 40, 0),
 			},
 			traces: stdTraces("lazy", medium, 0, stdOpts)})})
 
@@ -258,6 +267,7 @@ func init() {
 			return (k == "verdict.invoke" && contains(d, "missing", "want ok")) || (k == "exec.extra")
 		},
 		run: genericRun(stagePlan{
+			repo: true,
 			covers: []coverPlan{
 				randCover("missing", tweak(small, func(f *fam.Features) { f.POpt = 0.45; f.Ctors = 3; f.Types = 4; f.PGroup = 0.1 }), recBoth, 60, 500, 1),
 				structCover("chain", fam.Chain, rec, false, 40, 0, 2, 1),
@@ -269,10 +279,12 @@ func init() {
 		projection: "cycle verdicts of Provide and Invoke (three zones), IsCycleDetected, process survival, executions on a cycle",
 		kinds:      []string{"processcrash", "class.cycleflag", "graph.hook"},
 		extra: func(k, d string) bool {
-			return strings.HasPrefix(k, "verdict.") && contains(d, "cycle")
+			return (strings.HasPrefix(k, "verdict.") || k == "nest.verdict") && contains(d, "cycle")
 		},
 		run: genericRun(stagePlan{
+			repo: true,
 			covers: []coverPlan{
+				structCover("reenter", fam.Reenter, deferBoth, false, 12, 0, 1, 0),
 				digraphCover("digraphs-req", "req", deferBoth, 120, 2500),
 				digraphCover("digraphs-opt", "opt", deferBoth, 50, 1200),
 				digraphCover("digraphs-grp", "grp", deferBoth, 60, 1500),
@@ -324,6 +336,7 @@ func init() {
 			return k == "verdict.invoke" && contains(d, "fail", "panic", "invokeerr", "cycle")
 		},
 		run: genericRun(stagePlan{
+			repo: true,
 			covers: []coverPlan{
 				randCover("fault", small, recBoth, 40, 400, 2),
 				structCover("chain", fam.Chain, recBoth, true, 20, 0, 2, 2),
@@ -339,6 +352,7 @@ func init() {
 			return (k == "verdict.invoke" && contains(d, "missing")) || (strings.HasPrefix(k, "verdict.provide") && contains(d, "want ok"))
 		},
 		run: genericRun(stagePlan{
+			repo: true,
 			covers: []coverPlan{
 				structCover("chain", fam.Chain, rec, false, 60, 0, 2, 0),
 				wideCover("chain", fam.Chain, rec, false, 300, 0),
@@ -376,6 +390,7 @@ func init() {
 			return k == "exec.extra" || k == "exec.missing"
 		},
 		run: genericRun(stagePlan{
+			repo: true,
 			covers: []coverPlan{
 				structCover("groups", fam.Groups, rec, false, 30, 0, 2, 0),
 				wideCover("groups", fam.Groups, rec, false, 120, 0),
@@ -388,6 +403,7 @@ func init() {
 		projection: "bag of every soft group slice, executions caused by soft parameters",
 		kinds:      []string{"args.soft", "exec.extra"},
 		run: genericRun(stagePlan{
+			repo: true,
 			covers: []coverPlan{
 				structCover("groups", fam.Groups, rec, false, 20, 0, 2, 0),
 				structCover("softnest", fam.SoftNest, rec, false, 30, 0, 2, 1),
@@ -404,6 +420,7 @@ func init() {
 			return (k == "exec.extra" || k == "exec.missing") && contains(d, ": d")
 		},
 		run: genericRun(stagePlan{
+			repo: true,
 			covers: []coverPlan{
 				structCover("chain", fam.Chain, rec, false, 60, 0, 2, 0),
 				wideCover("chain", fam.Chain, rec, false, 300, 0),
@@ -416,17 +433,19 @@ func init() {
 
 	register(&propDef{id: "C13",
 		projection: "public-API classification of every error: RootCause, errors.Is with the execution's sentinel, errors.As(dig.Error), PanicError and its value, IsCycleDetected, identity of the invoked function's error, escaped panics",
-		kinds:      []string{"class", "root"},
+		kinds:      []string{"class", "root", "nest.root"},
 		extra: func(k, d string) bool {
 			// "IsCycleDetected is true exactly for cycle rejections": a cycle verdict where the
 			// specification has none (or the reverse) is a misclassified error
-			return (k == "verdict.invoke" && contains(d, "fail", "panic", "invokeerr")) || (strings.HasPrefix(k, "verdict.") && contains(d, "want cycle", "got cycle"))
+			return ((k == "verdict.invoke" || k == "nest.verdict") && contains(d, "fail", "panic", "invokeerr")) || ((strings.HasPrefix(k, "verdict.") || k == "nest.verdict") && contains(d, "want cycle", "got cycle"))
 		},
 		run: genericRun(stagePlan{
+			repo: true,
 			covers: []coverPlan{
 				randCover("errors", small, recBoth, 40, 500, 2),
 				structCover("chain", fam.Chain, recBoth, true, 20, 0, 2, 2),
 				structCover("groups", fam.Groups, recBoth, false, 8, 0, 2, 1),
+				structCover("reenter", fam.Reenter, recBoth, false, 12, 0, 2, 1),
 			},
 			traces: stdTraces("errors", medium, 0.3, recBoth),
 			sig:    true})})
@@ -454,6 +473,7 @@ func init() {
 		projection: "verdicts and provenance-by-function across registration orders, scope creation positions and the DeferAcyclicVerification setting",
 		kinds:      []string{"args", "verdict", "exec.extra", "exec.missing", "pair.perm", "pair.scope", "pair.defer"},
 		run: genericRun(stagePlan{
+			repo: true,
 			covers: []coverPlan{
 				randCover("orders", small, deferBoth, 50, 400, 0),
 				structCover("chain", fam.Chain, deferBoth, false, 50, 0, 2, 0),
@@ -466,6 +486,7 @@ func init() {
 		projection: "executions in a DryRun container (none), verdict classes of every operation",
 		kinds:      []string{"exec.dry", "verdict", "mk", "pair.dry"},
 		run: genericRun(stagePlan{
+			repo: true,
 			covers: []coverPlan{
 				randCover("dry", small, dryOpts, 50, 400, 0),
 				structCover("chain", fam.Chain, dryOpts, false, 50, 0, 2, 0),
@@ -516,6 +537,8 @@ func replaySpecial(def *propDef, f *Finding) int {
 		return replayGraph(f.Special)
 	case "sig":
 		return replaySig(def, f.Special)
+	case "repo-tests":
+		return replayRepoTrace(def, f)
 	}
 	return 2
 }
